@@ -317,6 +317,10 @@ def run_fit(W, cfg):
         B = rnp.array([[1.0, (r - shp[0] // 2) * ps[0], -(c - shp[1] // 2) * ps[1]] for r, c in cfg['segs'][g]])
         if rnp.linalg.matrix_rank(B) < 3:
             return
+    # another plane of the same shape and a different pixel scale is fitted first (same process): nothing of it may be remembered
+    prim = lt.Pupil(amplitude=rnp.ones(shp), opd=rnp.array([[0.5 * r - 0.25 * c + 0.125 * r * c for c in range(shp[1])] for r in range(shp[0])]),
+                    mask=rnp.ones(shp, dtype=int), pixelscale=(ps[0] * 3, ps[1] * 5), focal_length=10.0)
+    prim.fit_tilt(inplace=True)
     p = lt.Pupil(amplitude=rnp.ones(shp), opd=O, mask=m.copy(), pixelscale=ps, focal_length=10.0)
     q = p.fit_tilt(inplace=cfg['inplace'])
     if cfg['inplace']:
